@@ -24,7 +24,7 @@ PROPS = {
         assumptions=[A['A5'], A['A5p'], A['D_FQ'], A['TOOLS']],
     ),
     'C17': dict(
-        units_quick=['cofactor', 'curve'], units_thorough=['cofactor', 'curve'], timeout=600,
+        units_quick=['cofactor', 'curve'], units_thorough=['cofactor', 'curve'], timeout=1800,
         claim="chain_z, chain_h2_eff (real bodies, generic over CurveProjective), G1::clear_h and G2::clear_h return exactly [0xd201000000010000]P, "
               "[h_eff(G2)]P (the 636-bit RFC 9380 constant), [0xd201000000010001]P and [h_eff(G2)]P for every point of the abstract group, i.e. for every "
               "curve point in any representation; additivity and O -> O follow from the exact multiplier.",
@@ -33,7 +33,7 @@ PROPS = {
     ),
     'C12': dict(
         standins=['tower_ops'],
-        units_quick=['finalexp', 'tower'], units_thorough=['finalexp', 'tower'], timeout=300,
+        units_quick=['finalexp', 'tower'], units_thorough=['finalexp', 'tower'], timeout=1800,
         claim="Bls12::final_exponentiation (real body): returns None exactly for f = 0 and otherwise f^E with E = 3(q^12-1)/r: the exponent accumulated "
               "by the real statements (conjugate, inverse, Frobenius 1..3, squarings, exp_by_x with the crate's BLS_X) is tracked as an integer and "
               "shown congruent to E modulo q^12-1; the Fq12 operations it calls are the contracts proved for the real tower code in unit `tower`. "
@@ -44,7 +44,7 @@ PROPS = {
     ),
     'C01': dict(
         standins=['batch_normalization'],
-        units_quick=['curve'], units_thorough=['curve'], timeout=600,
+        units_quick=['curve'], units_thorough=['curve'], timeout=1800,
         claim="curve_impl! point formulas (real bodies, both instantiations): double, add_assign, add_assign_mixed satisfy the chord-and-tangent law of "
               "y^2 = x^3 + b case by case (P = O, Q = O, same point -> tangent relations, opposite points -> O, otherwise chord relations with Z3 != 0), "
               "stated in cleared-denominator form over Jacobian triples, for all field values; negate, is_zero, zero, is_normalized exact. "
@@ -56,7 +56,7 @@ PROPS = {
         assumptions=[A['A2'], A['A3'], "T1 an integer polynomial identity holds in every commutative ring (used to read G1's identities in Fq2)", A['D_FQ'], A['TOOLS']],
     ),
     'C14': dict(
-        units_quick=['h2c', 'cofactor', 'curve'], units_thorough=['h2c', 'cofactor', 'curve'], timeout=600,
+        units_quick=['h2c', 'cofactor', 'curve'], units_thorough=['h2c', 'cofactor', 'curve'], timeout=1800,
         claim="map_to_curve(u) = [h_eff] iso(sswu(u)) and map2_to_curve(u0,u1) = [h_eff](iso(sswu(u0)) + iso(sswu(u1))) with + the group law of the "
               "target curve, for every u (generic real bodies verified once against the trait contracts of OSSWUMap, IsogenyMap, ClearH, add_assign); "
               "the result is annihilated by r and the debug assertion cannot fire (the panic call is proved unreachable). On the pre-fix code the "
@@ -67,7 +67,7 @@ PROPS = {
     ),
     'C05': dict(
         standins=['encoders_api'],
-        units_quick=['encode', 'codec'], units_thorough=['encode', 'codec', 'recover', 'order', 'consts'], timeout=600,
+        units_quick=['encode', 'codec'], units_thorough=['encode', 'codec', 'recover', 'order', 'consts'], timeout=1800,
         claim="the four encoders (real bodies of EncodedPoint::from_affine and empty for G1/G2, compressed/uncompressed) return exactly the byte strings enc_* of "
               "specs/encode.vrs, written from the property statement: fixed lengths 96/48/192/96 (array types), big-endian 48-byte coordinates, c1 before c0, "
               "infinity = flag 0x40 and all other bits zero, compression flag 0x80, sort flag 0x20 set iff y > -y (canonical integer order; Fq2 lexicographic with c1 first); "
@@ -83,7 +83,7 @@ PROPS = {
     ),
     'C06': dict(
         standins=['expand_message_hash_to_field'],
-        units_quick=['h2c'], units_thorough=['h2c', 'cofactor', 'curve'], timeout=600,
+        units_quick=['h2c'], units_thorough=['h2c', 'cofactor', 'curve'], timeout=1800,
         claim="PARTIAL (composition only): hash_to_curve(msg,dst) = map2_to_curve(u[0],u[1]) with u = hash_to_field(msg,dst,2) and encode_to_curve = "
               "map_to_curve(hash_to_field(msg,dst,1)[0]): element count, indices and which map are verified on the real generic bodies; the result is "
               "a function of (msg, dst) only and is annihilated by r. RFC conformance of the stages is the conjunction of C13, C15, C16, C17, C14 under their scopes.",
@@ -91,7 +91,7 @@ PROPS = {
         assumptions=[A['A4'], "contract of hash_to_field (count elements, element i a function of (msg,dst,count,i)) assumed here", A['TOOLS']],
     ),
     'C07': dict(
-        units_quick=['scalar', 'consts', 'codec', 'serdes'], units_thorough=['scalar', 'consts', 'codec', 'serdes', 'curve', 'cofactor', 'h2c', 'ffdep'], timeout=600,
+        units_quick=['scalar', 'consts', 'codec', 'serdes'], units_thorough=['scalar', 'consts', 'codec', 'serdes', 'curve', 'cofactor', 'h2c', 'ffdep'], timeout=1800,
         claim="the membership predicate (real bodies, G1 and G2): in_subgroup(p) == (p is the identity or y^2 = x^3 + b) and [r]p = O, composed of "
               "is_on_curve (field formula exact), is_in_correct_subgroup_assuming_on_curve = mul(Fr::char()).is_zero() with mul the verified "
               "double-and-add; scale_by_cofactor multiplies by exactly h1 / h2. Closure of the subgroup under the group operations is group theory over "
@@ -103,7 +103,7 @@ PROPS = {
     ),
     'C02': dict(
         standins=['wnaf_contexts_precomp_3'],
-        units_quick=['scalar', 'precomp', 'wnaf', 'ffdep'], units_thorough=['scalar', 'precomp', 'wnaf', 'ffdep', 'curve'], timeout=600,
+        units_quick=['scalar', 'precomp', 'wnaf', 'ffdep'], units_thorough=['scalar', 'precomp', 'wnaf', 'ffdep', 'curve'], timeout=1800,
         claim="PARTIAL: the plain scalar-multiplication paths (real bodies, G1 and G2): affine mul_bits / mul (double and mixed add, MSB first) and "
               "projective mul_assign (leading-zero skipping) return [k]P for every limb value k of the scalar representation (all 2^256 values, any limb "
               "count for mul_bits), by a loop invariant over ff's BitIterator contract and proved bit-decomposition lemmas. The 256-entry table path (real bodies, G1 and G2): "
@@ -129,7 +129,7 @@ PROPS = {
     ),
     'C04': dict(
         standins=['fq2_sqrt_order'],
-        units_quick=['codec', 'scalar'], units_thorough=['codec', 'scalar', 'curve'], timeout=600,
+        units_quick=['codec', 'scalar'], units_thorough=['codec', 'scalar', 'curve'], timeout=1800,
         claim="the four decoders (real bodies of into_affine_unchecked and into_affine for G1/G2, compressed/uncompressed) equal the decoding functions "
               "dec_* / chk_* of specs/codec.vrs, written from the property statement, for every byte string of the right length: form flag, then "
               "infinity (all other bits zero) / sort flags, then coordinate range (each 48-byte big-endian block < q, all three flag bits cleared first), "
@@ -142,7 +142,7 @@ PROPS = {
     ),
     'C19': dict(
         standins=['serdes_streams'],
-        units_quick=['serdes', 'serout', 'codec'], units_thorough=['serdes', 'serout', 'codec', 'encode', 'scalar'], timeout=600,
+        units_quick=['serdes', 'serout', 'codec'], units_thorough=['serdes', 'serout', 'codec', 'encode', 'scalar'], timeout=1800,
         claim="reading side, points: deserialize for G1, G2, G1Affine, G2Affine (real generic bodies over a byte-stream reader): on success "
               "exactly 48/96 resp. 96/192 bytes are consumed and the value is what the checked decoder of unit codec returns for exactly those bytes; "
               "truncated input, a form flag contradicting the `compressed` argument and every encoding the checked decoder rejects give an error, never a "
@@ -160,7 +160,7 @@ PROPS = {
     ),
     'C18': dict(
         standins=['fq2_sqrt_order'],
-        units_quick=['order', 'recover', 'mont'], units_thorough=['order', 'recover', 'mont', 'ffdep', 'tower'], timeout=900,
+        units_quick=['order', 'recover', 'mont'], units_thorough=['order', 'recover', 'mont', 'ffdep', 'tower'], timeout=1800,
         claim="PARTIAL: Fq::sgn0 = parity of the canonical integer (limb-0 bit, proved with the limb-value lemma); Fq2::sgn0 = sgn0 of the first non-zero "
               "coefficient, real part first; Sgn0Result xor and negate_if exact; Ord / PartialOrd for Fq2 = lexicographic order with the u-coefficient most "
               "significant; Fq2::legendre = Legendre symbol of the norm; the two exponent literals of Fq2::sqrt equal (q-3)/4 and (q-1)/2 and sqrt(0) = 0; "
@@ -174,7 +174,7 @@ PROPS = {
         assumptions=[A['A8'], "A8' correctness of Adj/Rodriguez-Henriquez Algorithm 9", A['D_FQ'], "(-y)^2 = y^2 in Fq2 stated as a ring fact (lemma_neg_sq2)", A['TOOLS']],
     ),
     'C15': dict(
-        units_quick=['sswu', 'sswuhelp', 'order', 'consts'], units_thorough=['sswu', 'sswuhelp', 'order', 'consts', 'tower'], timeout=600,
+        units_quick=['sswu', 'sswuhelp', 'order', 'consts'], units_thorough=['sswu', 'sswuhelp', 'order', 'consts', 'tower'], timeout=1800,
         claim="PARTIAL: osswu_help (real generic body instantiated at Fq and Fq2) computes u^2, xi u^2, xi^2 u^4, the projective x1 candidate "
               "(-B/A)(1 + 1/(xi^2 u^4 + xi u^2)) as x0_num/x0_den with the exceptional denominator A*xi, and numerator / denominator of g(x1); "
               "chain_pm3div4 = x^((q-3)/4) and chain_p2m9div16 = x^((q^2-9)/16) exactly (exponent tracking of the real chains); the G1 and G2 maps "
@@ -230,7 +230,7 @@ PROPS = {
     ),
     'C13': dict(
         standins=['expand_message_hash_to_field'],
-        units_quick=['okm', 'consts'], units_thorough=['okm', 'consts'], timeout=600,
+        units_quick=['okm', 'consts'], units_thorough=['okm', 'consts'], timeout=1800,
         claim="PARTIAL (the reductions and the block splitting): Fq::from_okm(b) = be(b) mod q for every 64-byte block and Fr::from_okm(b) = be(b) mod r for every "
               "48-byte block (real bodies: two zero-padded big-endian reads, multiplication by the crate's constant 2^256 resp. 2^192, addition; the unwrap()s are "
               "proved safe because each half is below 2^256 < q resp. 2^192 < r); Fq2::from_ro takes the real part from bytes 0..64 and the u-coefficient from "
@@ -242,7 +242,7 @@ PROPS = {
                      "rewrite R12 (range indexing on GenericArray / Vec -> named accessors)"],
     ),
     'C16': dict(
-        units_quick=['symx:iso'], units_thorough=['symx:iso'], timeout=600, category='other',
+        units_quick=['symx:iso'], units_thorough=['symx:iso'], timeout=1800, category='other',
         technique="symbolic execution of the real eval_iso / isogeny_map bodies (compiled by rustc against a symbolic commutative ring; loops have constant bounds) + exact factored polynomial normal form against the rational map; NOT a Verus/Kani proof",
         claim="eval_iso with the G1 (11-isogeny: 12/11/16/16 coefficients) and G2 (3-isogeny: 4/3/4/4) tables computes, for every (X, Y, Z) over any commutative ring "
               "and any coefficient values, Z' = xden*yden, X' = xnum*yden*Z', Y' = Z'^2*ynum*xden with xnum = H_xnum(X,Z), xden = H_xden(X,Z) Z^2, ynum = H_ynum(X,Z) Y, "
